@@ -189,6 +189,11 @@ def match_known(pid, viol):
             continue
         m = k.get("match", {})
         ok = True
+        # A known finding describes behaviour of the *design* (the precise specification shows the
+        # same failure).  A failing event on which the code deviates from the precise specification is
+        # therefore a different violation and is never suppressed.
+        if viol.get("conforms") is False and not k.get("allow_drift", False):
+            ok = False
         for key, want in m.items():
             have = viol.get(key)
             if isinstance(want, list):
@@ -297,6 +302,12 @@ class Ctx:
             raise ToolError("trace validation %s consumed %s of %d events" % (module, d.get("events"), n))
         fails = r.tagged("MONFAIL")
         drifts = r.tagged("DRIFT")
+        # a failing event "conforms" when the code did there exactly what the precise specification
+        # predicts: only such failures can be instances of a recorded (design-level) known finding
+        drift_idx = {d.get("i") for d in drifts if isinstance(d, dict)}
+        for f in fails:
+            if isinstance(f, dict):
+                f["conforms"] = f.get("i") not in drift_idx
         stats = r.tagged("STAT")
         log("  trace %s on %s: %d events, %d monitor failures, %d drift, %.1fs" % (
             module, os.path.basename(trace_path), n, len(fails), len(drifts), r.wall))
